@@ -108,6 +108,19 @@ prop('C09',
   "Not decided: interleavings of handshake replies with asynchronous messages as executions; socket-level loss points; timing of the deferred sender.",
   "custom AST/CFG checker: who-may-raise / who-may-write ownership, dominance, path-sensitive reachability under constant environments (once-only state table), registry exhaustiveness", "DESIGN.md 5/C09")
 
+prop('C20',
+  "Static analysis of /repo's current source: decides structural necessary conditions of the send path - at every socket-send site "
+  "(Connection.send, DeferredSender.run, IOWorker._do_send, RecocoIOWorker.send_fast; recoco.Send in the thorough tier) def-use from "
+  "`l = sock.send(B)` shows the count is compared with len of the same buffer B and the remainder is the suffix B[l:] (or "
+  "_consume_send_buf(l) of the written buffer); queues grow at the tail and shrink at the head, a partial deferred write replaces the head "
+  "by its suffix and stops; the direct write in Connection.send is unreachable while the deferred sender is sending or the connection is "
+  "disconnected, and only the unsent suffix is handed off; every access to the deferred map and every write of `sending` lies inside "
+  "`with self._lock`, flag and queue in one critical section, flag first, cleared only when the map is empty; a closed / connecting / "
+  "non-empty-buffer worker cannot reach the direct write in send_fast; fatal branches disconnect/close, drop the queue and stop; close is a "
+  "test-and-set. Decides these conditions, not all fault scripts or thread timings as executions.",
+  "Not decided: thread interleavings at bytecode granularity; behaviour of the OS socket; that the deferred sender eventually flushes.",
+  "custom AST/CFG checker: def-use send-result discipline, lock-region membership, must-precede, path-sensitive reachability under constant environments, ownership of queue writers", "DESIGN.md 5/C20")
+
 NOT_APPLICABLE = {
   'C16': "Address types: the statement is about numeric/textual agreement over the whole address domain (byte order, mask arithmetic, CIDR parsing, zero-run compression, round trips, rejection of malformed text) - results of computations on runtime values; no shape-level rule is a necessary and telling condition for it (DESIGN.md section 7).",
 }
